@@ -146,6 +146,11 @@ func (x *Exec) doCallVals(p *Path, site ssa.Instruction, cc *ssa.CallCommon, fnv
 			k(p, resultVal(rtuple, res))
 			return
 		}
+		if ec := e.cs.Externs[name]; ec != nil {
+			// assumed contract of a dependency function; parameters are named by `params`
+			x.applyContract(p, site, ec, nil, key, args, rtypes, rtuple, k, pk)
+			return
+		}
 		if fc := e.contractOf(callee); fc != nil && !(callee == x.fn && false) {
 			x.applyContract(p, site, fc, callee, key, args, rtypes, rtuple, k, pk)
 			return
@@ -403,6 +408,9 @@ func (x *Exec) applyContract(p *Path, site ssa.Instruction, fc *FuncContract, ca
 	}
 	if fc.Kind != "func" {
 		e.note("assumed " + fc.Kind + " contract: " + fc.Name)
+	}
+	if fc.Kind == "extern" {
+		key = fc.Name
 	}
 	p.events = append(p.events, Event{Key: key, Args: args, Res: res})
 	k(p, resultVal(rtuple, res))
